@@ -378,8 +378,22 @@ package ociauth
 //@   loop 0 invariant h == nil || isChallenge(h)
 //@   ensures[only-basic-or-bearer-is-selected] result != nil ==> isChallenge(result)
 //@ func parseWWWAuthenticate
-//@   trusted
 //@   modifies nothing
+//@   loop 0 invariant h.params != nil
+
+// The tokenizer below parseWWWAuthenticate never panics, whatever the header
+// value (quoted strings with escapes, unterminated quotes, empty strings):
+// index safety of its three scanners for all strings.
+//@ func skipSpace
+//@   modifies nothing
+//@   loop 0 invariant 0 <= i && i <= len(s)
+//@ func expectToken
+//@   modifies nothing
+//@   loop 0 invariant 0 <= i && i <= len(s)
+//@ func expectTokenOrQuoted
+//@   modifies nothing
+//@   loop 0 invariant 0 <= i && i <= len(s)
+//@   loop 1 invariant 0 <= j && j < i && i <= len(s) && len(p) == len(s) - 1
 
 // ---------------------------------------------------------------------------
 // C09 (continued): containment, stated on the representation. s1 contains s2
